@@ -1,5 +1,8 @@
 ID = 'C14'
-UNITS = {'fs': dict(wrap='wrap.cc', new_block=64, per_harness={'h_readall.c': {'new_block': 16400}}),
+UNITS = {'fs': dict(wrap='wrap.cc', new_block=64),
+         # read_all: 16 KiB std::string blocks -> operator-new block 16400 bytes; the 16384-byte zero fill is one constant memset
+         'fsbig': dict(wrap='wrap.cc', new_block=16400, gen_defs=['VERIF_MEMSET_BULK_N=16384', 'VERIF_NEW_BLOCK_SMALL=160'],
+                       cuts=[r'^_ZN5phosg8io_errorC1Ei$']),
          # same TU; the cannot_open_file(const string&) constructor (what() text concatenation only) is an external no-op
          'fsx': dict(wrap='wrap.cc', new_block=64, cuts=[r'^_ZN5phosg16cannot_open_fileC1ERKNSt7__cxx1112basic_string'])}
 BOUNDS = ''
@@ -33,7 +36,7 @@ def queries(tier):
                        desc='scoped_fd: every sequence of %d operations (10 kinds, 2 objects, open may fail) vs an ownership model; every descriptor handed out is closed exactly once' % n,
                        bounds='%d operations, 2 objects' % n))
     for S in ([0, 1, 2, 3] if tier == 'quick' else [0, 1, 2, 3, 4, 5, 6]):
-        qs.append(dict(name='readall_fd_len%d' % S, unit='fs', harness='h_readall.c', defs={'S': S}, unwind=S + 20, timeout=900, mem_gb=10, flags=FS0,
+        qs.append(dict(name='readall_fd_len%d' % S, unit='fsbig', harness='h_readall.c', defs={'S': S}, unwind=S + 4, timeout=900, mem_gb=10, flags=FS0,
                        desc='read_all(fd) over a %d-byte symbolic source delivered in every possible chunking (each read returns 1..remaining bytes, then 0), optional read fault: result == source or io_error' % S,
                        bounds='source length == %d; <= %d read calls' % (S, S + 2)))
     return qs
